@@ -21,7 +21,7 @@ import numpy as np
 import core
 import gen
 
-PROOF_MODULES = ["UnytProofs.C04", "UnytProofs.Real.C04Homog"]
+PROOF_MODULES = ["UnytProofs.C04", "UnytProofs.C04Programs", "UnytProofs.Real.C04Homog"]
 EPS = 2.0 ** -52
 SLACK = 64 * EPS  # rounding of unit scales, conversion factors and simplification coefficients
 
@@ -857,7 +857,7 @@ def run(tier, seed):
                 P.nodes.append(Node(r[0], r[1], r[2], r[3], max(P.nodes[j].depth for j in args) + 1, (uf, method, args, None), r[4]))
 
     # ------------------------------------------------------------------ 2. programs: direct oracle
-    nprog = 500 if tier == "quick" else 6000
+    nprog = 2000 if tier == "quick" else 24000
     max_depth = 4 if tier == "quick" else 6
     sys_ops = list(BINARY) + list(UNARY) + list(REDUCE)
     plan = []
@@ -976,6 +976,71 @@ def run(tier, seed):
                     qb = unyt_quantity(float(np.ravel(b.d)[0]), b.units)
                     add_binary_case(op, qa, qb, tag="nested")
                     chk.count("model-nested")
+
+    # whole programs through the model's evaluator (Prog.evalModel — the function program_covariant is about)
+    PB = {"add", "subtract", "multiply", "divide", "maximum", "fmax", "minimum", "fmin", "hypot", "remainder", "arctan2",
+          "copysign", "floor_divide"}
+    PU = {"negative", "absolute", "fabs", "positive", "conjugate", "sqrt", "cbrt", "square", "reciprocal"}
+
+    def covered(nd):
+        op, form, args, p = nd.desc
+        if op == "leaf":
+            return True
+        if form in ("reduce", "accumulate", "outer"):
+            return False
+        return (op in PB and len(args) == 2) or (op in PU and len(args) == 1) or op == "power"
+
+    nprog_model = 0
+    for P, gs, custom in dag_nodes_for_model:
+        if nprog_model >= (400 if tier == "quick" else 3000):
+            break
+        vals = []
+        for i, nd in enumerate(P.nodes):
+            try:
+                if nd.desc[0] == "leaf":
+                    vals.append(spell_leaf(P.leaves[i][0], P.leaves[i][1], rng.randrange(len(gs[P.leaves[i][1]][1])), gs, custom))
+                else:
+                    vals.append(apply_node(nd.desc, vals, custom))
+            except Exception:  # noqa: BLE001
+                vals.append(None)
+        best = None
+        for i in range(len(P.nodes) - 1, len(P.leaves) - 1, -1):
+            anc = P.ancestors(i)
+            if all(covered(P.nodes[j]) and vals[j] is not None for j in anc) and hasattr(vals[i], "units"):
+                best = i
+                break
+        if best is None:
+            continue
+        anc = P.ancestors(best)
+        leaf_ids = [j for j in anc if P.nodes[j].desc[0] == "leaf"]
+        toks = []
+
+        def emit(j, P=P, leaf_ids=leaf_ids, toks=toks):
+            op, form, args, p = P.nodes[j].desc
+            if op == "leaf":
+                toks.append(f"L{leaf_ids.index(j)}")
+                return
+            for a_ in args:
+                emit(a_)
+            if op == "power":
+                import sympy as _s
+                toks.append("P:" + gen.rat_str(_s.Rational(str(p)).limit_denominator()))
+            elif len(args) == 2:
+                toks.append("B:" + op)
+            else:
+                toks.append("U:" + op)
+
+        emit(best)
+        try:
+            fields = []
+            for j in leaf_ids:
+                fields += wire_unit(vals[j].units) + [str(core.f2b(float(np.ravel(vals[j].d)[0])))]
+        except ValueError:
+            continue
+        model_lines.append("\t".join(["c04.prog", str(len(leaf_ids))] + fields + toks))
+        model_expect.append(("prog", (describe(P, gs, best), vals[best], float(np.ravel(np.asarray(16 * P.nodes[best].err + 1e-300))[0]))))
+        nprog_model += 1
+        chk.count("model-program")
 
     # unary / reductions / dot / pow
     # (isnat: NumPy's kernel itself rejects floats, before any unit logic matters)
@@ -1143,6 +1208,19 @@ def run(tier, seed):
             lv = float(np.asarray(r.d if hasattr(r, "units") else r))
             if not vclose(mv, lv, abs(x0) + abs(x1 * conv) if name in ("add", "subtract", "remainder", "fmod", "nextafter") else 0.0):
                 chk.disagree("c04.binary", f"{what}: model value {mv!r} (conv {conv!r}, mul {mul!r}, post {post!r}) implementation {lv!r}")
+        elif kind == "prog":
+            desc, r, tol = info
+            if rep[0] != "ok":
+                chk.disagree("c04.prog", f"{desc}: model {rep[:2]} implementation returned {r!r}")
+                continue
+            if not unit_matches(rep, r.units):
+                chk.disagree("c04.prog", f"{desc}: model unit {rep[1:7]} implementation unit {r.units!r} (scale {r.units.base_value})")
+                continue
+            mv, lv = core.b2f(rep[7]), float(np.ravel(r.d)[0])
+            # same operations in the same order on both sides: equal up to rounding of scales; where a
+            # difference of nearly equal numbers is involved the propagated bound of the oracle applies
+            if not (vclose(mv, lv, 0.0) or abs(mv - lv) * float(r.units.base_value) <= 4 * tol):
+                chk.disagree("c04.prog", f"{desc}: model value {mv!r} implementation {lv!r}")
         elif kind == "unary":
             name, method, q, lib = info
             what = f"np.{name}{'' if method == '__call__' else '.' + method}({q!r})"
